@@ -1,6 +1,7 @@
 #!/bin/bash
 # Adds minimised violating traces to the regression corpus (/verif/corpus/<property>/).
 #   tools/mkcorpus.sh seeded <id> <property>...     trace(s) that catch seeded change /verif/seeded/<id>/patch.diff
+#   tools/mkcorpus.sh patch <name> <property>...    same, for a hand-resolved revert kept as corpus/patches/<name>.diff
 #   tools/mkcorpus.sh revert <commit> <property>... trace(s) that catch the defect repaired by /repo commit <commit>
 # A trace is kept only if it (1) violates on the changed scratch copy and (2) does NOT violate on /repo as it is.
 # Scratch copies live under /tmp and are removed.
@@ -12,6 +13,7 @@ S=/tmp/mc-$$
 rm -rf "$S"; cp -r /repo "$S"; git -C "$S" checkout -q -- . ; git -C "$S" clean -fdq
 case "$mode" in
   seeded) git -C "$S" apply "$V/seeded/$what/patch.diff" || { echo "$what: patch does not apply"; rm -rf "$S"; exit 3; }; label="seeded-$what";;
+  patch) git -C "$S" apply "$V/corpus/patches/$what.diff" || { echo "$what: patch does not apply"; rm -rf "$S"; exit 3; }; label="$what";;
   revert) git -C "$S" revert -n "$what" >/dev/null 2>&1 || { echo "$what: revert conflicts"; rm -rf "$S"; exit 3; }; label="fix-$what";;
   *) echo "usage"; exit 2;;
 esac
